@@ -3,6 +3,7 @@ import JT.Spec.Reply
 import JT.Props.C01
 import JT.Proof.Pipe
 import JT.Gen.ConcShape
+import JT.Props.C04
 /-!
 # C06 — automatic replies: one per request, correctly correlated, ordered and numbered
 
@@ -191,5 +192,33 @@ example : Pipe.Reach 2 10 ⟨1, none, [], some 0, [.sockwrite 0, .readcb 0]⟩ :
 /-- every delivered message is handed to the writer: the reader's send on `msgChan` is a plain blocking send, as the
 `r2` step of the Pipe system assumes (read off the source on every run) -/
 theorem messages_not_dropped : Gen.msgSendBlocking = true := by decide
+
+/-! ### the replies do not depend on how TCP cuts the stream (C04 ∘ C06) -/
+
+/-- the writer's work when the reader hands it the messages of one read after the other -/
+def repliesPerRead (tbl : List (Nat × Bool × Nat)) : Conn → List (List PMsg) → Conn × List Rec
+  | c, [] => (c, [])
+  | c, ms :: r =>
+    let (c1, rs) := replies tbl c ms
+    let (c2, rest) := repliesPerRead tbl c1 r
+    (c2, rs ++ rest)
+
+theorem repliesPerRead_flatten (tbl : List (Nat × Bool × Nat)) : ∀ (ls : List (List PMsg)) (c : Conn),
+    repliesPerRead tbl c ls = replies tbl c ls.flatten
+  | [], c => by simp [repliesPerRead, replies]
+  | ms :: r, c => by
+    simp only [repliesPerRead, List.flatten_cons]
+    rw [replies_append, repliesPerRead_flatten tbl r]
+
+/-- **Replies are independent of the segmentation.** For every sequence of valid frames and EVERY partition of the
+byte stream into reads, the reply records the writer produces (reply ID, platform serial, body — hence the frames on the
+wire), and the connection state afterwards, are those of the frames arriving one per read. (Messages here are the ones
+`unpack` delivers; for sub-packaged transfers the completed message is appended at the end of the read that completed it,
+so there the ORDER of replies can depend on where reads end — which is why the socket-level `convcut` runs use
+conversations without sub-packages.) -/
+theorem replies_independent_of_segmentation (tbl : List (Nat × Bool × Nat)) (fs chunks : List Bytes)
+    (hv : ∀ f ∈ fs, ValidFrame f) (hc : chunks.flatten = fs.flatten) (c : Conn) :
+    repliesPerRead tbl c (runUnpack [] chunks).1 = replies tbl c (fs.map msgOf) := by
+  rw [repliesPerRead_flatten, (C04.unpack_any_chunking fs chunks hv hc).2.2.1]
 
 end JT.C06
